@@ -14,6 +14,7 @@ import (
 	"strings"
 	"time"
 
+	"github.com/form3tech-oss/f1/v2/internal/verifshim/vatomic"
 	"github.com/form3tech-oss/f1/v2/internal/verifshim/vatomict"
 	"github.com/form3tech-oss/f1/v2/internal/verifshim/vctx"
 	"github.com/form3tech-oss/f1/v2/internal/verifshim/vtime"
@@ -179,6 +180,63 @@ func componentWith(scripts []string, snaps int, labels map[string]string, plain 
 		vrt.ExtCalls = labels != nil
 		vrt.PlainPoints = plain
 	}}
+}
+
+// poolStop: the part of a run's end that decides "all iterations complete": a
+// trigger pool with requests still pending is stopped, the caller waits for
+// PoolManager.WaitForCompletion (as Run.run does) and then takes the totals.
+// Whatever the pool reports dropped must be in those totals: nothing may be
+// recorded after completion has been announced.
+type stopWorld struct {
+	stats             *progress.Stats
+	reg               *prometheus.Registry
+	atCompletion      uint64
+	startedAtComplete uint64
+}
+
+var sw *stopWorld
+
+func poolStop(workersN, requested int) vrt.Scenario {
+	name := fmt.Sprintf("pool-stop/workers=%d/requested=%d/totals-taken-when-the-pool-announces-completion", workersN, requested)
+	body := func() {
+		x := &stopWorld{stats: &progress.Stats{}, reg: prometheus.NewRegistry()}
+		sw = x
+		var gate vatomic.Bool
+		m := metrics.NewInstance(x.reg, true, nil)
+		sc := &scenarios.Scenario{Name: "s", RunFn: func(*f1testing.T) {
+			vrt.WaitUntil("gate", func() bool { return gate.Peek() })
+		}}
+		as := workers.NewActiveScenario(sc, m, x.stats, hlib.DiscardLogger(), hlib.DiscardLogrus())
+		mgr := workers.New(0, as)
+		pool := mgr.NewTriggerPool(workersN)
+		ctx, cancel := vctx.WithCancel(vctx.Background())
+		defer cancel()
+		wctx := pool.Start(ctx)
+		pool.Trigger(wctx, requested) // the workers take one each and block in it; the rest stays pending
+		vrt.WaitUntil("workers-busy", func() bool { return pool.VerifPending() <= int64(requested-workersN) })
+		cancel() // the run ends: what is pending is discarded and reported dropped
+		gate.Store(true)
+		vrt.Recv(mgr.WaitForCompletion())
+		tot := x.stats.Total()
+		x.atCompletion = tot.DroppedIterationCount
+		x.startedAtComplete = tot.SuccessfulIterationDurations.Count + tot.FailedIterationDurations.Count
+	}
+	post := func(o *vrt.Outcome) {
+		classify(o, "C01")
+		if o.Status != vrt.StOK {
+			return
+		}
+		final := sw.stats.Total().DroppedIterationCount
+		_, _, md := hlib.IterationCounts(sw.reg)
+		if sw.atCompletion != final || md != final {
+			o.Fail("C01/final-counts", "dropped-recorded-after-completion", fmt.Sprintf("when the pool announced completion the totals had %d dropped; afterwards %d (metric %d): %d iterations were reported dropped after the final totals were taken", sw.atCompletion, final, md, final-sw.atCompletion))
+		}
+		if sw.startedAtComplete+final != uint64(requested) {
+			o.Fail("C01/final-counts", "pool-stop:not-conserved", fmt.Sprintf("%d requested, %d started + %d dropped", requested, sw.startedAtComplete, final))
+		}
+		o.Sig = fmt.Sprintf("started=%d dropped=%d", sw.startedAtComplete, final)
+	}
+	return vrt.Scenario{Name: name, Body: body, Post: post, Memo: true, Horizon: time.Minute, Setup: func() { vatomict.Active = false }}
 }
 
 func labelsN(n int) map[string]string {
@@ -380,6 +438,14 @@ func scenariosFor(tier string) []vrt.Scenario {
 	add := func(b int, snaps int, scripts ...string) {
 		sc := component(scripts, snaps)
 		sc.Bound = b
+		out = append(out, sc)
+	}
+	for _, c := range [][2]int{{1, 3}, {2, 4}} {
+		sc := poolStop(c[0], c[1])
+		sc.Bound = 2
+		if tier != "quick" {
+			sc.Bound = 3
+		}
 		out = append(out, sc)
 	}
 	if tier == "quick" {
